@@ -82,9 +82,10 @@ def cs_write_calls_locked(sc):
             bad.append("%s: lock/unlock/return stream %r" % (sig, t))
     for f, sig in (("conn_unix.go", r"func \(c \*Conn\) flush\("), ("sendfile_unix.go", r"func \(c \*Conn\) Sendfile\(")):
         b = _body(sc, f, sig)
-        t = re.sub(r"[WAFR]", "", _tokens(b)) if b else ""
-        if not re.fullmatch(r"LD(CT)*", t):
-            bad.append("%s: lock stream %r" % (sig, t))
+        t = re.sub(r"[AFR]", "", _tokens(b)) if b else ""
+        # the mutex is taken (and its release deferred) before the write list is looked at
+        if not re.fullmatch(r"LD[WCT]*", t):
+            bad.append("%s: lock stream %r (write list touched outside the locked region?)" % (sig, t))
     return (not bad, "; ".join(bad))
 
 
